@@ -2,5 +2,7 @@
 #![allow(unused_imports, dead_code)]
 use super::*;
 
+pub(crate) use super::read::verif_kani::kani_reader;
+
 #[cfg(test)]
 include!("/verif/.build/playback/bitbox_wal.inc");
